@@ -60,6 +60,7 @@ class Run:
     wall: float = 0.0
     env: dict = field(default_factory=dict)
     walk: list = field(default_factory=list)      # [phase, kind, name] per enter/leave callback of the AST walker, when traced
+    todo: list = field(default_factory=list)      # events of the TODO-marker bookkeeping (raise / flush / enter / begin / end), when traced
     cache: list = field(default_factory=list)     # [qname, owner of the returned docstring] per cache lookup, when traced
 
     @property
@@ -83,7 +84,7 @@ DRY_RUN: list | None = None
 
 def run_cli(src: Path, opts: Opts | None = None, *, out: Path | None = None, hashseed: int | str = 0,
             globperm: int | None = None, cwd: Path | None = None, spelling: str = "abs",
-            timeout: int = 300, keep_out: bool = True, pythonpath: str | None = None, trace_cache: bool = False, trace_walk: bool = False) -> Run:
+            timeout: int = 300, keep_out: bool = True, pythonpath: str | None = None, trace_cache: bool = False, trace_walk: bool = False, trace_todo: bool = False) -> Run:
     """Run the CLI on package directory `src`. spelling in {abs, rel, abs/}: how -s/-o are written on the command line."""
     import time
 
@@ -106,7 +107,7 @@ def run_cli(src: Path, opts: Opts | None = None, *, out: Path | None = None, has
     recp = work / "record.json"
     argsp = work / "args.json"
     argsp.write_text(json.dumps({"argv": ["-s", s_arg, "-o", o_arg, *opts.argv()], "record": str(recp),
-                                 "globperm": globperm, "src_abs": src_abs, "out_abs": out_abs, "trace_cache": trace_cache, "trace_walk": trace_walk}))
+                                 "globperm": globperm, "src_abs": src_abs, "out_abs": out_abs, "trace_cache": trace_cache, "trace_walk": trace_walk, "trace_todo": trace_todo}))
     env = {k: v for k, v in os.environ.items() if k not in ("PYTHONHASHSEED", "PYTHONPATH")}
     env["PYTHONHASHSEED"] = str(hashseed)
     env["PYTHONDONTWRITEBYTECODE"] = "1"
@@ -124,6 +125,10 @@ def run_cli(src: Path, opts: Opts | None = None, *, out: Path | None = None, has
             r.writes, r.warnings = rec["writes"], rec["warnings"]
             r.cache = rec.get("cache", [])
             r.walk = rec.get("walk", [])
+            r.todo = rec.get("todo", [])
+            for k in ("cache_error", "walk_error", "todo_error"):
+                if rec.get(k):
+                    r.msg += f" [{k}: {rec[k]}]"
         else:
             r.exit = "crash"
             r.exc = "NoRecord"
